@@ -63,7 +63,8 @@ def run_shards(name, in_type, out_type, verdict_fn, spec_fn, cases, *, extra_imp
 
     def one(path):
         try:
-            p = subprocess.run(["coqc", "-R", COQ, "CP", "-w", "-all", path], capture_output=True, text=True, timeout=timeout)
+            # large literal terms (a chart with a thousand notes) need a deep stack in coqc's parser / vm
+            p = subprocess.run(["sh", "-c", 'ulimit -s unlimited 2>/dev/null; exec coqc -R "$0" CP -w -all "$1"', COQ, path], capture_output=True, text=True, timeout=timeout)
         except subprocess.TimeoutExpired:
             return path, None, "timeout after %ds" % timeout
         if p.returncode != 0:
